@@ -946,6 +946,15 @@ impl Compiler {
 
             // Pop scope
             self.builder.emit(Op::PopScope);
+
+            // While the catch body ran, the VM kept a finally-only handler on the try
+            // stack (so that break/return/throw inside the catch still run the finally).
+            // The catch body completed normally: drop that handler, exactly as PopTry
+            // does after the try block.  Without this the stale handler made a later
+            // `return` run the finally block a second time.
+            if try_stmt.finalizer.is_some() {
+                self.builder.emit(Op::PopTry);
+            }
         }
 
         // Jump to finally (if exists) or end
